@@ -63,7 +63,8 @@ class Spec(core.PropSpec):
         plan["overlap"] = [[rc.randint(0, 12), rc.randint(1, 4)] for _ in range(rc.randint(1, 2))] if rc.random() < 0.2 else None
         if level == "loader":
             plan.update(K=ro.choice([0, 1, 2, 2, 3, 4]), prefetch=ro.choice([1, 2, 2, 3]), sched_seed=ro.getrandbits(32),
-                        stall=ro.choice([None, None, 0, 1]), tagged=[ro.random() < 0.7 for _ in range(len(w["configs"]) + 1)])
+                        stall=ro.choice([None, None, 0, 1]), tagged=[ro.random() < 0.7 for _ in range(len(w["configs"]) + 1)],
+                        start_method=st("preempt").choice(["fork", "fork", "spawn"]), preempt_rate=st("preempt").choice([0, 0, 0, 0.05, 0.3]))
         return plan
 
     def shrink_candidates(self, plan):
@@ -171,6 +172,9 @@ class Spec(core.PropSpec):
             chooser = Chooser(seed=plan["sched_seed"], weights=weights)
             trace = []
             created = []
+            start_method = plan.get("start_method", "fork")
+            preempt = dict(seed=plan["sched_seed"], rate=plan["preempt_rate"]) if plan.get("preempt_rate") else None
+            switches = 0
 
         log = []
         try:
@@ -200,7 +204,11 @@ class Spec(core.PropSpec):
         out.count("logical:batches_delivered", len(delivered))
         out.count("sched:worker_steps", len(L.trace))
         # out-of-order completion actually happened?
-        order = [t[1] for t in L.trace if t[0] != "main"]
+        if L.switches:
+            out.count("fault:worker_preempted_inside_a_sample", L.switches)
+        if K >= 1 and L.start_method == "spawn":
+            out.count("fault:workers_started_with_spawn")
+        order = [t[1] for t in L.trace if t[0] != "main" and len(t) == 2]
         if order != sorted(order):
             out.count("fault:out_of_order_completion")
         if K > 0:
